@@ -9,6 +9,8 @@ CONSTANTS
   Colls = {1}
   Chans = {"ch"}
   MsgIds = {"m"}
+  Reserved = {}
+  PosKeyPositive = FALSE
   ZeroColl = FALSE
   Backend = "mysql"
   DelNoRoot = FALSE
